@@ -542,6 +542,9 @@ enum Cond {
     NegativePrice,
     ZeroEma,
     ImpostorAtAnotherAddress,
+    /// a bank from before the Pyth-push migration (config flags 0) is offered an account of the receiver program at
+    /// another address whose feed id field spells the configured oracle key
+    LegacyFeedIdImpostor,
     StakedMintImpostor,
     StakedPoolImpostor,
     StakedZeroSupply,
@@ -650,6 +653,22 @@ fn apply_cond(sc: &Scene, s: &mut Store, bi: usize, c: &Cond) -> Option<(Option<
             r.accts.remove(&ok);
             reference = Some(r);
         }
+        Cond::LegacyFeedIdImpostor => {
+            if kind != Kind::Pyth {
+                return None;
+            }
+            world::edit_bank(s, &w.banks[bi].key, |b| b.config.config_flags = 0);
+            let mut a = (*s.get(&ok).unwrap()).clone();
+            a.digest = Default::default();
+            let vl = if a.data[40] == 1 { 1 } else { 2 };
+            a.data[8 + 32 + vl..8 + 32 + vl + 32].copy_from_slice(&ok.to_bytes());
+            let k = key(&format!("c09:legacy_impostor:{}", bi));
+            s.set(k, a);
+            replace = Some((ok, k));
+            let mut r = s.clone();
+            r.accts.remove(&ok);
+            reference = Some(r);
+        }
         Cond::StakedMintImpostor | Cond::StakedPoolImpostor => {
             if kind != Kind::Staked {
                 return None;
@@ -702,7 +721,7 @@ fn with_replace(mut i: crate::svm::Ix, rep: Option<(Pubkey, Pubkey)>) -> crate::
 
 fn decision_matrix(_tier: Tier, t: &mut Tally) {
     let kinds = [(Kind::Pyth, Kind::Pyth, 120u16), (Kind::Swb, Kind::Swb, 120), (Kind::Fixed, Kind::Pyth, 120), (Kind::Pyth, Kind::Fixed, 120), (Kind::Staked, Kind::Pyth, 120), (Kind::Pyth, Kind::Pyth, 30), (Kind::Swb, Kind::Swb, 30), (Kind::Staked, Kind::Pyth, 30)];
-    let conds = [Cond::Fresh, Cond::AgeAtLimit, Cond::AgeOverLimit, Cond::WrongOwner, Cond::BadDiscriminator, Cond::PartialVerification, Cond::ConfJustUnderMax, Cond::ConfJustOverMax, Cond::ZeroPrice, Cond::ZeroPriceWithConf, Cond::NegativePrice, Cond::ZeroEma, Cond::ImpostorAtAnotherAddress, Cond::StakedMintImpostor, Cond::StakedPoolImpostor, Cond::StakedZeroSupply, Cond::FixedZero];
+    let conds = [Cond::Fresh, Cond::AgeAtLimit, Cond::AgeOverLimit, Cond::WrongOwner, Cond::BadDiscriminator, Cond::PartialVerification, Cond::ConfJustUnderMax, Cond::ConfJustOverMax, Cond::ZeroPrice, Cond::ZeroPriceWithConf, Cond::NegativePrice, Cond::ZeroEma, Cond::ImpostorAtAnotherAddress, Cond::LegacyFeedIdImpostor, Cond::StakedMintImpostor, Cond::StakedPoolImpostor, Cond::StakedZeroSupply, Cond::FixedZero];
     for (ki, (ak, lk, max_age)) in kinds.iter().enumerate() {
         let sc = scene_with_max_age(*ak, *lk, &format!("d{ki}"), *max_age);
         let w = &sc.w;
